@@ -19,7 +19,7 @@ import (
 	"verif/harness/vlib"
 )
 
-var c15outcomes = []string{"ok", "exit1", "failed-message", "drop-object", "truncated", "empty"}
+var c15outcomes = []string{"ok", "exit1", "failed-message", "drop-object", "truncated", "empty", "failed-message-with-objects"}
 
 func TestC15E2E(t *testing.T) {
 	e := vlib.GetEnv()
@@ -111,6 +111,8 @@ func TestC15E2E(t *testing.T) {
 				d.Exit, d.Conversion = 1, "@convert"
 			case "failed-message":
 				d.Conversion = fmt.Sprintf(`{"failedMessage":"step %d of %s says no"}`, i, h)
+			case "failed-message-with-objects":
+				d.Conversion = "@convert-and-failed-message"
 			case "drop-object":
 				d.Conversion = "@convert-drop-one"
 			case "truncated":
@@ -284,6 +286,10 @@ func TestC15E2E(t *testing.T) {
 		} else {
 			if success {
 				res.Violate("e2e/success-although-step-failed/"+cls, "answer is Success with %d objects (requested %d) although step %d was %q\n%s", len(r.ConvertedObjects), nObj, firstBad, v[firstBad], desc)
+			} else if v[firstBad] == "failed-message-with-objects" {
+				if want := "converted, but " + rules[firstBad].Hook + " says no"; !strings.Contains(r.Result.Message, want) {
+					res.Violate("e2e/hook-message-lost", "the failing hook said %q, the answer's message is %q\n%s", want, r.Result.Message, desc)
+				}
 			} else if v[firstBad] == "failed-message" {
 				want := fmt.Sprintf("step %d of %s says no", firstBad, rules[firstBad].Hook)
 				if !strings.Contains(r.Result.Message, want) {
